@@ -44,6 +44,9 @@ func (c *ExecCtx) lockKeyOf(st *State, e ast.Expr) (key string, idx *Term, field
 			if isPkgLevel(v) {
 				return "G." + v.Pkg().Path() + "." + v.Name(), nil, v.Name()
 			}
+			if la, ok := st.lockAlias[v]; ok {
+				return la.key, la.idx, la.field
+			}
 			if t, ok := st.vars[v]; ok && t.Sort == SInt {
 				return "L." + t.String(), nil, v.Name()
 			}
